@@ -349,8 +349,8 @@ example : (run foldSimp exOracle {} exEnv
     With `cfg.sha3` on: SHA3 of a concrete-size memory range — the digest literal for concrete data, the application
     `f_sha3_<bits>(data)` otherwise, with the path conditions `sha3_data` appends; `hsha`: `I` interprets `f_sha3_<8n>`
     as the reference's hash of the `n` bytes and the model's hash of concrete data is the reference's.
-    `hnc`: CREATE is not followed (`Cfg.create` off: it ends the path stuck); the model of CREATE behind that switch
-    is checked by the differential harness only (see Model.SevmCalls; `crMain` below is an instance).
+    `hnc`: CREATE is not followed (`Cfg.create` off: it ends the path stuck); with it on see
+    `sound_calls_create_partial` below (`crMain` is an instance).
     Symbolic call / EXTCODE* targets, precompiles (as call targets) and cheat-code addresses end the path stuck: an
     error report, about which nothing is claimed. Known finding kept out by the tag `staticValue`: a value-bearing
     CALL in a static frame succeeds in the code (`TODO: revert if context is static`); the model stops there. Tagged ends (no claim):
@@ -639,7 +639,7 @@ example :
       some (Keccak.keccak256 (List.replicate 31 0 ++ [0x2a])) := by
   decide +kernel
 
-/-- CREATE (`cfg.create` on; model and differential harness only — the theorems above assume it off): the runtime
+/-- CREATE (`cfg.create` on: `sound_calls_create_partial`): the runtime
     code `mstore(0, caller); mstore(32, address); return(0, 64)` -/
 def crRuntime : List Nat := [0x33, 0x60, 0, 0x52, 0x30, 0x60, 0x20, 0x52, 0x60, 0x40, 0x60, 0, 0xf3]
 /-- its constructor: `mstore(0, <runtime>); return(19, 13)` -/
@@ -668,6 +668,46 @@ example :
     (Evm.exec exPC 60 { exWC with code := [(0x1000, crMain)] } { exF0 with code := crMain }).map
         (fun r => r.1.codeOf 0xaaaa0002) = some (some crRuntime) := by
   decide +kernel
+
+/-- the reference with the code's allocator (`con_addr(magic_address + new_address_offset + n)`) -/
+def crP : Evm.Params := { exPC with newAddress := fun n => (0xaaaa0001 + n) % 2 ^ 160 }
+def crCodes : List (Nat × List Nat) := [(0x1000, crMain)]
+def crW : Evm.World := { code := crCodes, storage := [], transient := [], balance := [] }
+
+theorem create_end : ∃ ce ∈ (runC foldSimp exOracle { create := true } exEnv crCodes 0x1000 200).ends,
+    ce.e.tag = .normal ∧ ce.e.out = .halt (.success []) ∧ ce.e.st.path = [] ∧
+    ce.e.data.map (·.eval exI) =
+      Evm.natToBytes 32 0x1000 ++ Evm.natToBytes 32 0xaaaa0002 ++ Evm.natToBytes 32 0xaaaa0002 ∧
+    codeOf ce.created 0xaaaa0002 = some crRuntime := by
+  decide +kernel
+
+/-- `sound_calls_create_partial` on it (non-vacuity): the reference EVM, executing the CREATE and the call into the
+    new account, returns those bytes, and the new account `0xaaaa0002` holds the runtime code in the final world -/
+example : ∃ n w', Evm.exec crP n crW { exF0 with code := crMain } =
+        some (w', .success (Evm.natToBytes 32 0x1000 ++ Evm.natToBytes 32 0xaaaa0002 ++ Evm.natToBytes 32 0xaaaa0002)) ∧
+      w'.codeOf 0xaaaa0002 = some crRuntime := by
+  obtain ⟨ce, hce, htag, hout, hp, hd, hcr⟩ := create_end
+  have hR : R exI exEnv ((codeOf crCodes 0x1000).getD []) crP initState { exF0 with code := crMain } :=
+    ⟨rfl, rfl, StackRel.nil, ⟨exR.env.caller, exR.env.origin, exR.env.callvalue, exR.env.address, exR.env.cd,
+      exR.env.cdByte, exR.env.cdSize, exR.env.isStatic⟩, exR.subst, MemRel.nil _, MemRel.nil _⟩
+  obtain ⟨n, w', h1, hW⟩ := sound_calls_create_partial foldSimp_sound exOracle { create := true } exEnv crCodes 0x1000
+    200 crP crW (by decide) (by decide) (fun a => rfl) (by
+      intro a prog hc b hb
+      have hall : ∀ q ∈ crCodes, ∀ b ∈ q.2, b < 256 := by decide
+      unfold codeOf at hc
+      cases hf : crCodes.find? (fun q => q.1 == a) with
+      | none => rw [hf] at hc; cases hc
+      | some q =>
+        rw [hf] at hc
+        simp only [Option.map_some, Option.some.injEq] at hc
+        subst hc
+        exact hall q (List.mem_of_find?_eq_some hf) b hb)
+    (fun _ _ _ => ⟨rfl, rfl⟩) (fun _ => rfl) (fun _ n => by show (0xaaaa0001 + (0 + n)) % 2 ^ 160 = _; rw [Nat.zero_add])
+    (fun _ a => by show Evm.lookupD [] a 0 < 2 ^ 256; simp [Evm.lookupD])
+    ce hce htag (.success []) hout exI exI_std (fun h => by cases h) _ hR rfl rfl (by rw [hp]; exact Sat.nil _) rfl
+  refine ⟨n, w', ?_, ?_⟩
+  · rw [h1, hd]; rfl
+  · rw [hW.code, wd_codeOf, hcr]; rfl
 
 /-- a reverting callee: `sstore(0, 7); mstore(0, 0x2a); revert(0, 32)` -/
 def revCallee : List Nat := [0x60, 7, 0x60, 0, 0x55, 0x60, 0x2a, 0x60, 0, 0x52, 0x60, 32, 0x60, 0, 0xfd]
